@@ -33,6 +33,7 @@ impl SchemeSpec {
                 b.add_field(name, ty.to_type()).expect("field");
             }
         }
+        self.refused_registrations(&mut b);
         for f in &self.functions {
             if *f == "concat" {
                 b.add_function("concat", wirefilter::ConcatFunction::new()).expect("function");
@@ -60,8 +61,77 @@ impl SchemeSpec {
                 }
             }
         }
+        self.refused_registrations(&mut b);
         b.set_nil_not_equal_behavior(self.nil_ne);
         b
+    }
+
+    /// Real builder histories contain refused registrations (the C API just returns false and carries on): a name that
+    /// is taken, offered again as a field of another type, as an optional field, or as a function. Each must be
+    /// refused and must leave the builder exactly as it was (`verify_shape` and every later use of the scheme say so).
+    fn refused_registrations(&self, b: &mut SchemeBuilder) {
+        if !chance(1, 4, "builder.refused") {
+            return;
+        }
+        let mut names: Vec<&str> = self.fields.iter().map(|f| f.0.as_str()).collect();
+        names.extend(self.functions.iter().copied());
+        for _ in 0..range(1, 3, "builder.refused_n") {
+            if names.is_empty() {
+                return;
+            }
+            // (functions registered later are not taken yet at the first call site; then the offer is simply accepted
+            // as a field and refused as a function afterwards - avoid that by only offering names of fields there)
+            let name = names[choose(names.len(), "builder.refused_name")];
+            let taken = self.fields.iter().any(|f| f.0 == name);
+            if !taken {
+                continue;
+            }
+            let ty = [MType::Int, MType::Bytes, MType::arr(MType::Bytes), MType::map(MType::Int), MType::Bool][choose(5, "builder.refused_ty")].clone();
+            let refused = match choose(3, "builder.refused_kind") {
+                0 => b.add_field(name, ty.to_type()).is_err(),
+                1 => b.add_optional_field(name, ty.to_type()).is_err(),
+                _ => b.add_function(name, seams::HookedFn(seams::function_def("echo"))).is_err(),
+            };
+            if !refused {
+                panic!("a second registration of the name {name:?} was accepted");
+            }
+            crate::kernel::count("builder.refused");
+        }
+    }
+
+    /// The built scheme enumerates exactly the registered fields, functions and lists, in registration order, and
+    /// every by-name lookup lands on the same entry.
+    pub fn verify_shape(&self, scheme: &Scheme) -> Result<(), String> {
+        use wirefilter::GetType;
+        if scheme.field_count() != self.fields.len() || scheme.fields().len() != self.fields.len() {
+            return Err(format!("{} fields registered, the scheme counts {} and enumerates {}", self.fields.len(), scheme.field_count(), scheme.fields().len()));
+        }
+        for (i, (f, (name, ty, optional))) in scheme.fields().zip(self.fields.iter()).enumerate() {
+            if f.name() != name || f.get_type() != ty.to_type() || f.optional() != *optional || f.index() != i {
+                return Err(format!("field #{i}: registered {name:?}: {} optional={optional}, enumerated {:?}: {:?} optional={} index {}", ty.short(), f.name(), f.get_type(), f.optional(), f.index()));
+            }
+            match scheme.get_field(name) {
+                Ok(g) if g == f => {}
+                other => return Err(format!("field #{i} {name:?}: lookup by name gives {other:?}")),
+            }
+        }
+        if scheme.function_count() != self.functions.len() {
+            return Err(format!("{} functions registered, the scheme counts {}", self.functions.len(), scheme.function_count()));
+        }
+        for name in &self.functions {
+            if scheme.get_function(name).is_err() {
+                return Err(format!("function {name:?} cannot be looked up"));
+            }
+        }
+        if scheme.list_count() != self.lists.len() || scheme.lists().len() != self.lists.len() {
+            return Err(format!("{} lists registered, the scheme counts {}", self.lists.len(), scheme.list_count()));
+        }
+        for (i, (l, (ty, _))) in scheme.lists().zip(self.lists.iter()).enumerate() {
+            if l.get_type() != ty.to_type() || scheme.get_list(&ty.to_type()) != Some(l) {
+                return Err(format!("list #{i}: registered for {}, enumerated for {:?}", ty.short(), l.get_type()));
+            }
+        }
+        Ok(())
     }
 
     pub fn build(&self) -> Scheme {
